@@ -64,8 +64,8 @@ type input struct {
 	Desc  string
 	Msg   []byte
 	Paths [][]int
-	Case  *tcase      // for TLC classes
-	Inst  *instSpec   // for instances
+	Case  *tcase    // for TLC classes
+	Inst  *instSpec // for instances
 	built *mimegen.Built
 }
 
@@ -189,7 +189,7 @@ func (d *drv) exec(in *input) *wRes {
 	}
 	// well-formed texts
 	if res.Err == "" && res.Panic == "" {
-		for _, t := range [][2]string{{"ENVELOPE", res.Envelope}, {"BODY", res.Body}, {"BODYSTRUCTURE", res.Structure}} {
+		for _, t := range [][2]string{{"ENVELOPE", string(res.Envelope)}, {"BODY", string(res.Body)}, {"BODYSTRUCTURE", string(res.Structure)}} {
 			if _, err := mimegen.ParseList(t[1]); err != nil {
 				le, _ := err.(*mimegen.ListError)
 				kind := "error"
@@ -465,7 +465,7 @@ func (d *drv) strong(in *input, res *wRes) {
 	for _, t := range []struct {
 		what, txt string
 		ext       bool
-	}{{"BODY", res.Body, false}, {"BODYSTRUCTURE", res.Structure, true}} {
+	}{{"BODY", string(res.Body), false}, {"BODYSTRUCTURE", string(res.Structure), true}} {
 		it, err := mimegen.ParseList(t.txt)
 		if err != nil {
 			continue // reported by the weak expectation
@@ -473,7 +473,7 @@ func (d *drv) strong(in *input, res *wRes) {
 		cm := &cmp{d: d, in: in, b: b, what: t.what, ext: t.ext}
 		cm.node(c.Exp.Struct, it)
 	}
-	if it, err := mimegen.ParseList(res.Envelope); err == nil {
+	if it, err := mimegen.ParseList(string(res.Envelope)); err == nil {
 		cm := &cmp{d: d, in: in, b: b, what: "ENVELOPE"}
 		cm.envelope(c.Exp.Struct, it, "top")
 	}
